@@ -2360,11 +2360,15 @@ namespace bloch::runtime {
             }
         } else if (auto tern = dynamic_cast<TernaryStatement*>(s)) {
             Value cond = eval(tern->condition.get());
+            // each branch is a scope of its own, like the branches of an 'if': a declaration
+            // written there does not outlive the statement
+            beginScope();
             if (isTruthy(cond)) {
                 exec(tern->thenBranch.get());
             } else {
                 exec(tern->elseBranch.get());
             }
+            endScope();
         } else if (auto fors = dynamic_cast<ForStatement*>(s)) {
             beginScope();
             if (fors->initializer)
